@@ -456,7 +456,7 @@ def run_fuzz_input(case):
 
 
 def plan(tier):
-    n = 1500 if tier == "quick" else 200000
+    n = 4000 if tier == "quick" else 200000
     stages = [{"kind": "hyp", "name": "summaries", "strategy": cases(), "examples": n}]
     if tier == "thorough":
         seeds = [b'Odi_A="b"\nScs_SceneShift="0"\n', b'Pdi_L11ProductFileName01="VOL-X"\r\nAch_PRF_Check=""\r\n']
